@@ -8,7 +8,7 @@
 From Coq Require Import List Arith.
 From EN Require Import Lib.Bytes Frame.Framer Frame.ReadUntil Frame.BufReadUntil Stream.Consumer Stream.SpecDecode
   Stream.Endpoint Stream.EndpointSpec Proofs.C03_proofs Proofs.C03_fixed Proofs.C03_readuntil Proofs.C03_bufreaduntil
-  Conc.RecvLock Proofs.C03_lock Proofs.C03_instances.
+  Conc.RecvLock Proofs.C03_lock Proofs.C03_buffixed Proofs.C03_instances.
 Import ListNotations.
 
 (* For every transport oracle (chunking, silences, transport errors, position of the peer's close, even data after the
@@ -282,6 +282,59 @@ Theorem timeout_loses_nothing_buffered_read_until :
     = map of_nres evs ++ [RecvAborted].
 Proof. exact (@bru_timeout_loses_nothing). Qed.
 Print Assumptions timeout_loses_nothing_buffered_read_until.
+
+(* ---- closed instances, buffer-filling receiver x fixed-size framing (FixedSizePacketSerializer.buffered_incremental_
+   deserialize): no hypothesis on the stream at all *)
+Theorem buffered_fixed_size_consumer_ok :
+  forall (P : Type) (size : nat) (dec : decoder P) (sizehint : nat), 1 <= size ->
+    consumer_ok_rel (buf_machine (bfx_framer size dec) sizehint) (fun d => fst (fx_events size dec d)) (fun _ => True)
+                    (bfx_R size dec sizehint) (bfx_D size dec sizehint).
+Proof. exact (@bfx_consumer_ok_rel). Qed.
+Print Assumptions buffered_fixed_size_consumer_ok.
+
+Theorem recv_sequence_buffered_fixed_size :
+  forall (P : Type) (size : nat) (dec : decoder P) (sizehint : nat), 1 <= size ->
+  forall (mode : emode) (o : oracle) (ts : list (option nat)) (j : nat) (r : rres P),
+    nth_error (delivered (results (run_calls (buf_machine (bfx_framer size dec) sizehint) mode
+                                             (linit (bcinit (bfx_framer size dec))) o ts))) j = Some r ->
+    r = expected (fst (fx_events size dec (stream_of o))) j.
+Proof. exact (@bfx_recv_sequence). Qed.
+Print Assumptions recv_sequence_buffered_fixed_size.
+
+Theorem no_partial_delivery_buffered_fixed_size :
+  forall (P : Type) (size : nat) (dec : decoder P) (sizehint : nat), 1 <= size ->
+  forall (mode : emode) (o : oracle) (ts : list (option nat)) (s1 tail : bytes),
+    stream_of o = s1 ++ tail -> snd (fx_events size dec s1) = [] -> length tail < size ->
+    forall (j : nat) (r : rres P),
+      nth_error (delivered (results (run_calls (buf_machine (bfx_framer size dec) sizehint) mode
+                                               (linit (bcinit (bfx_framer size dec))) o ts))) j = Some r ->
+      length (fst (fx_events size dec s1)) <= j -> r = RecvAborted.
+Proof. exact (@bfx_no_partial). Qed.
+Print Assumptions no_partial_delivery_buffered_fixed_size.
+
+Theorem eof_sticky_buffered_fixed_size :
+  forall (P : Type) (size : nat) (dec : decoder P) (sizehint : nat), 1 <= size ->
+  forall (mode : emode) (o : oracle) (ts1 : list (option nat)) rs1 st1 o1,
+    run_calls (buf_machine (bfx_framer size dec) sizehint) mode (linit (bcinit (bfx_framer size dec))) o ts1 = (rs1, st1, o1) ->
+    forall t st2 o2 el,
+      receive (buf_machine (bfx_framer size dec) sizehint) mode t st1 o1 = (st2, o2, RecvAborted, el) ->
+      forall (ts' : list (option nat)) (o' : oracle),
+        exists st3, run_calls (buf_machine (bfx_framer size dec) sizehint) mode st2 o' ts'
+                    = (map (fun _ => (RecvAborted, o')) ts', st3, o').
+Proof. exact (@bfx_eof_sticky). Qed.
+Print Assumptions eof_sticky_buffered_fixed_size.
+
+Theorem timeout_loses_nothing_buffered_fixed_size :
+  forall (P : Type) (size : nat) (dec : decoder P) (sizehint : nat), 1 <= size ->
+  forall (mode : emode) (o : oracle) (ts : list (option nat)),
+    let evs := fst (fx_events size dec (stream_of o)) in
+    firstn (S (length evs))
+           (delivered (results (run_calls (buf_machine (bfx_framer size dec) sizehint) mode
+                                          (linit (bcinit (bfx_framer size dec))) o
+                                          (ts ++ repeat None (S (length evs) + raises o)))))
+    = map of_nres evs ++ [RecvAborted].
+Proof. exact (@bfx_timeout_loses_nothing). Qed.
+Print Assumptions timeout_loses_nothing_buffered_fixed_size.
 
 (* non-vacuity of the safe-band hypothesis: CRLF framing, limit 8, ascii codec; "a\r\n" | silence | "\200\r" "\nbc" (peer
    closes inside the third frame): safe for both bands, decodes to [packet "a"; decode error], both paths agree *)
